@@ -173,6 +173,13 @@ Definition merged_pv (p : pvals) (M : mprops) (dtid : option id) (d : dt) : pval
      v_value := revalidate (match m_value M with Some x => x | None => v_value p end) d;
      v_dt := dtid |}.
 
+Definition has_dtprops (M : mprops) : bool :=
+  match m_min M, m_max M, m_unit M with None, None, None => false | _, _, _ => true end.
+
+(* the inherited datatype properties are set on datatype object d itself (no property, no write) *)
+Definition write_dtprops (h : heap) (d : id) (M : mprops) : heap :=
+  if has_dtprops M then set_dt h d (apply_dtprops (getd (snd h) d) M) else h.
+
 (* Parameter.merge, in place on object w: a given datatype is copied (fresh object), the datatype properties are
    set on the current datatype object of w *)
 Definition merge_cell (h : heap) (w : id) (M : mprops) : heap :=
@@ -186,7 +193,7 @@ Definition merge_cell (h : heap) (w : id) (M : mprops) : heap :=
       match v_dt p with
       | Some d0 =>
           let nd := apply_dtprops (getd (snd h) d0) M in
-          set_pv (set_dt h d0 nd) w (merged_pv p M (Some d0) nd)
+          set_pv (write_dtprops h d0 M) w (merged_pv p M (Some d0) nd)
       | None => set_pv h w (merged_pv p M None dt0)
       end
   end.
@@ -195,7 +202,7 @@ Definition merge_cell (h : heap) (w : id) (M : mprops) : heap :=
    the inherited datatype object itself before it is copied, and it is copied only if the overridden object has
    a datatype of its own *)
 Definition clone_cell (h : heap) (w : id) (M : mprops) (z : Z) : heap * id :=
-  let h1 := match m_dt M with Some d => set_dt h d (apply_dtprops (getd (snd h) d) M) | None => h end in
+  let h1 := match m_dt M with Some d => write_dtprops h d M | None => h end in
   let '(h2, dtid) := match v_dt (pv (getp (fst h) w)) with
                      | Some _ => let '(h', i) := alloc_dt h1 (rd_dt (snd h1) (m_dt M)) in (h', Some i)
                      | None => (h1, m_dt M)
@@ -206,12 +213,21 @@ Definition clone_cell (h : heap) (w : id) (M : mprops) (z : Z) : heap * id :=
                           m_min := None; m_max := None; m_unit := None |} |}.
 
 (* second loop of __init_subclass__ for one name.  Result: heap, accessibles so far, own __dict__ *)
-Record dres := { r_heap : heap; r_acc : list (name * id); r_dict : list (name * dentry) }.
+Record dres := { r_heap : heap; r_acc : list (name * id); r_dict : list (name * dentry);
+                 r_wp : list id;     (* ghost: Parameter objects written in place *)
+                 r_wd : list id }.   (* ghost: datatype objects written in place *)
 
 Fixpoint set_assoc {A} (k : nat) (v : A) (l : list (nat * A)) : list (nat * A) :=
   match l with
   | [] => []
   | (k', x) :: r => if Nat.eqb k k' then (k, v) :: r else (k', x) :: set_assoc k v r
+  end.
+
+(* setattr(cls, name, obj): replaces the entry of the class body or adds one (the bare value may come from a base) *)
+Fixpoint put_assoc {A} (k : nat) (v : A) (l : list (nat * A)) : list (nat * A) :=
+  match l with
+  | [] => [(k, v)]
+  | (k', x) :: r => if Nat.eqb k k' then (k, v) :: r else (k', x) :: put_assoc k v r
   end.
 
 Definition resolve_name (cs : list cls) (mro : list nat) (r : dres) (k : name) : dres :=
@@ -223,26 +239,39 @@ Definition resolve_name (cs : list cls) (mro : list nat) (r : dres) (k : name) :
       | Some None => r
       | Some (Some z) =>
           let '(h', n) := clone_cell (r_heap r) wid (w_M w) z in
-          {| r_heap := h'; r_acc := r_acc r ++ [(k, n)]; r_dict := set_assoc k (DParam n) (r_dict r) |}
+          {| r_heap := h'; r_acc := r_acc r ++ [(k, n)]; r_dict := put_assoc k (DParam n) (r_dict r);
+             r_wp := r_wp r;
+             r_wd := match m_dt (w_M w) with
+                     | Some d => if has_dtprops (w_M w) then d :: r_wd r else r_wd r
+                     | None => r_wd r end |}
       | None =>
-          {| r_heap := merge_cell (r_heap r) wid (w_M w); r_acc := r_acc r ++ [(k, wid)]; r_dict := r_dict r |}
+          {| r_heap := merge_cell (r_heap r) wid (w_M w); r_acc := r_acc r ++ [(k, wid)]; r_dict := r_dict r;
+             r_wp := wid :: r_wp r;
+             r_wd := match m_dt (w_M w), v_dt (pv (getp (fst (r_heap r)) wid)) with
+                     | None, Some d0 => if has_dtprops (w_M w) then d0 :: r_wd r else r_wd r
+                     | _, _ => r_wd r end |}
       end
   end.
 
 Definition all_names : list name := [0; 1; 2; 3].
 
-Definition define (s : state) (d : cdef) : state :=
+Definition define_core (s : state) (d : cdef) : dres :=
   let '(h1, dict1) := fold_left new_entry (d_dict d) ((params s, dts s), []) in
+  let r0 := {| r_heap := h1; r_acc := []; r_dict := dict1; r_wp := []; r_wd := [] |} in
   if d_module d then
     let cs := classes s ++ [{| c_module := true; c_mro := d_mro d; c_dict := dict1; c_acc := [] |}] in
-    let r := fold_left (resolve_name cs (d_mro d)) all_names {| r_heap := h1; r_acc := []; r_dict := dict1 |} in
-    {| params := fst (r_heap r); dts := snd (r_heap r);
-       classes := classes s ++ [{| c_module := true; c_mro := d_mro d; c_dict := r_dict r; c_acc := r_acc r |}];
-       insts := insts s |}
-  else
-    {| params := fst h1; dts := snd h1;
-       classes := classes s ++ [{| c_module := false; c_mro := d_mro d; c_dict := dict1; c_acc := [] |}];
-       insts := insts s |}.
+    fold_left (resolve_name cs (d_mro d)) all_names r0
+  else r0.
+
+Definition define (s : state) (d : cdef) : state :=
+  let r := define_core s d in
+  {| params := fst (r_heap r); dts := snd (r_heap r);
+     classes := classes s ++ [{| c_module := d_module d; c_mro := d_mro d; c_dict := r_dict r; c_acc := r_acc r |}];
+     insts := insts s |}.
+
+(* the already existing objects a definition writes to: (Parameter objects, datatype objects) *)
+Definition footprint (s : state) (d : cdef) : list id * list id :=
+  (r_wp (define_core s d), r_wd (define_core s d)).
 
 (* ---------- descriptions *)
 Definition read (ps : list pcell) (ds : list dt) (i : id) : acc_desc :=
